@@ -389,6 +389,9 @@ func TestPlannerInterval(t *testing.T) {
 		autoGroup := rapid.IntRange(0, 5).Draw(t, "autoGroup") == 0
 		q := &stmt.Query{TimeRange: timeutil.TimeRange{Start: start, End: end}, Interval: userIv, AutoGroupByTime: autoGroup}
 		qctx.VerifCalcTimeRangeAndInterval(q, models.Database{Name: "db", Option: opt})
+		// the same range planned without any requested bucket width: what the range alone gives
+		plain := &stmt.Query{TimeRange: timeutil.TimeRange{Start: start, End: end}}
+		qctx.VerifCalcTimeRangeAndInterval(plain, models.Database{Name: "db", Option: opt})
 
 		stored := false
 		for _, i := range ivs {
@@ -414,10 +417,75 @@ func TestPlannerInterval(t *testing.T) {
 			t.Fatalf("range [%d,%d] (slots %d..%d) does not cover requested slots %d..%d of [%d,%d] at %d",
 				q.TimeRange.Start, q.TimeRange.End, q.TimeRange.Start/si, q.TimeRange.End/si, start/si, end/si, start, end, si)
 		}
+		// --- the requested bucket width is honoured (group by time(w) / group by time()) -----------
+		// Documented in the planner and the statement struct: "if query interval not set, first set
+		// it using the smallest interval"; "re-calc query interval based on query time range" (a
+		// range shorter than one hour keeps the requested width); "if auto calc interval < user
+		// input, need to use user input"; AutoGroupByTime = "auto fix group by interval based on
+		// query time range" (the whole planned range plus its last slot). The range-based width is
+		// not re-stated here: it is taken from the plan of the same range without a requested width.
+		wClasses := []string{}
+		truncU := userIv.Int64() / si * si
+		rangeSlots := (q.TimeRange.End-q.TimeRange.Start)/si + 1
+		switch {
+		case autoGroup:
+			// time() without a width: one bucket holds every requested slot ...
+			if int64(q.IntervalRatio) < rangeSlots {
+				t.Fatalf("group by time() over [%d,%d]: planned interval %s (ratio %d of %s) does not hold the %d requested slots of the planned range [%d,%d] in one bucket (requested width %s, database %s)",
+					start, end, q.Interval, q.IntervalRatio, q.StorageInterval, rangeSlots, q.TimeRange.Start, q.TimeRange.End, userIv, ivs)
+			}
+			// ... and when nothing else was requested the bucket is exactly the planned range
+			if userIv == 0 && int64(q.IntervalRatio) != rangeSlots {
+				t.Fatalf("group by time() over [%d,%d]: planned interval %s = %d slots of %s, the planned range [%d,%d] has %d (database %s)",
+					start, end, q.Interval, q.IntervalRatio, q.StorageInterval, q.TimeRange.Start, q.TimeRange.End, rangeSlots, ivs)
+			}
+			wClasses = append(wClasses, "width=auto:one-bucket-holds-the-range")
+			if rangeSlots > 1 {
+				wClasses = append(wClasses, "width=auto:range-of->=2-slots")
+			}
+		case userIv > 0:
+			// never finer than what was asked for (in whole storage slots)
+			if q.Interval.Int64() < truncU {
+				t.Fatalf("group by time(%s) over [%d,%d]: planned interval %s is finer than the requested width (storage interval %s, database %s)",
+					userIv, start, end, q.Interval, q.StorageInterval, ivs)
+			}
+			switch {
+			case span < hour:
+				// no range-based re-calculation below one hour: exactly the requested width, in
+				// whole storage slots, at least one
+				want := truncU
+				if want < si {
+					want = si
+				}
+				if q.Interval.Int64() != want {
+					t.Fatalf("group by time(%s) over the %d ms range [%d,%d]: planned interval %s, want %d ms (storage interval %s, database %s)",
+						userIv, span, start, end, q.Interval, want, q.StorageInterval, ivs)
+				}
+				wClasses = append(wClasses, "width=requested:range<1h:exact")
+			case plain.StorageInterval == q.StorageInterval:
+				// the coarser of the requested width and what the range alone gives
+				want := plain.Interval.Int64()
+				cls := "width=requested:range>=1h:range-recalc-is-coarser"
+				if truncU > want {
+					want = truncU
+					cls = "width=requested:range>=1h:requested-is-coarser"
+				}
+				if q.Interval.Int64() != want {
+					t.Fatalf("group by time(%s) over [%d,%d]: planned interval %s; the range alone gives %s, so the coarser of the two is %d ms (storage interval %s, database %s)",
+						userIv, start, end, q.Interval, plain.Interval, want, q.StorageInterval, ivs)
+				}
+				wClasses = append(wClasses, cls)
+			default:
+				wClasses = append(wClasses, "width=requested:range>=1h:other-storage-interval-than-plain(not judged)")
+			}
+		default:
+			wClasses = append(wClasses, "width=none")
+		}
+
 		fams := q.StorageInterval.Calculator().CalcTimeWindows(q.TimeRange.Start, q.TimeRange.End)
 		nt := fams >= 2 || q.IntervalRatio > 1
 		ev.Case("TestPlannerInterval", fmt.Sprintf("%v/%d/%d/%d/%v", ivs, start, end, userIv, autoGroup), nt,
-			[]string{fmt.Sprintf("nIntervals=%d", len(ivs)), fmt.Sprintf("autoGroup=%v", autoGroup)},
+			append([]string{fmt.Sprintf("nIntervals=%d", len(ivs)), fmt.Sprintf("autoGroup=%v", autoGroup)}, wClasses...),
 			map[string]any{"intervals": ivs.String(), "start": start, "end": end, "userInterval": userIv.String(),
 				"planned": map[string]any{"storage": q.StorageInterval.String(), "interval": q.Interval.String(), "ratio": q.IntervalRatio, "range": q.TimeRange}})
 	})
